@@ -2,9 +2,12 @@ package j2t
 
 import (
 	"context"
+	"math"
+	"strconv"
 
 	"github.com/cloudwego/dynamicgo/conv"
 	vrt "github.com/cloudwego/dynamicgo/internal/zzverif"
+	"github.com/cloudwego/dynamicgo/internal/native/types"
 	"github.com/cloudwego/dynamicgo/meta"
 	"github.com/cloudwego/dynamicgo/thrift"
 )
@@ -13,6 +16,8 @@ func init() {
 	vrt.Register("VerifC02_Member", VerifC02_Member)
 	vrt.Register("VerifC02_Malformed", VerifC02_Malformed)
 	vrt.Register("VerifC02_TopScalar", VerifC02_TopScalar)
+	vrt.Register("VerifC02_Flags", VerifC02_Flags)
+	vrt.Register("VerifC02_Numbers", VerifC02_Numbers)
 }
 
 // Same schema as the t2j harnesses (S / Inner), see conv/t2j/zz_verif_c03.go.
@@ -366,4 +371,64 @@ func VerifC02_TopScalar() {
 	} else {
 		vrt.Reach("wellformed")
 	}
+}
+
+// VerifC02_Flags: the option bits handed to the converter core: each value-affecting option is
+// passed on independently of all the others (every combination of the nine options).
+func VerifC02_Flags() {
+	o := conv.Options{
+		WriteDefaultField: vrt.Bool(), DisallowUnknownField: vrt.Bool(), EnableValueMapping: vrt.Bool(),
+		EnableHttpMapping: vrt.Bool(), String2Int64: vrt.Bool(), WriteRequireField: vrt.Bool(),
+		NoBase64Binary: vrt.Bool(), WriteOptionalField: vrt.Bool(), ReadHttpValueFallback: vrt.Bool(),
+	}
+	cv := NewBinaryConv(o)
+	f := cv.flags
+	vrt.Assert((f&types.F_WRITE_DEFAULT != 0) == o.WriteDefaultField, "C02.flags.write-default")
+	vrt.Assert((f&types.F_ALLOW_UNKNOWN != 0) == !o.DisallowUnknownField, "C02.flags.allow-unknown")
+	vrt.Assert((f&types.F_VALUE_MAPPING != 0) == o.EnableValueMapping, "C02.flags.value-mapping")
+	vrt.Assert((f&types.F_HTTP_MAPPING != 0) == o.EnableHttpMapping, "C02.flags.http-mapping")
+	vrt.Assert((f&types.F_STRING_INT != 0) == o.String2Int64, "C02.flags.string-int")
+	vrt.Assert((f&types.F_WRITE_REQUIRE != 0) == o.WriteRequireField, "C02.flags.write-require")
+	vrt.Assert((f&types.F_NO_BASE64 != 0) == o.NoBase64Binary, "C02.flags.no-base64")
+	vrt.Assert((f&types.F_WRITE_OPTIONAL != 0) == o.WriteOptionalField, "C02.flags.write-optional")
+	vrt.Assert((f&types.F_TRACE_BACK != 0) == o.ReadHttpValueFallback, "C02.flags.trace-back")
+	var cv2 BinaryConv
+	cv2.SetOptions(o)
+	vrt.Assert(cv2.flags == f, "C02.flags.setoptions-same")
+	vrt.Reach("done")
+}
+
+var verifNumberSpellings = []string{"0", "-0", "7", "-12", "1.5", "-0.25", "1e2", "1E2", "1.5E3", "1.5e+3", "25E-1", "1e-2", "0.0", "123456789012", "9007199254740993", "1.7976931348623157e308", "5e-324"}
+
+// VerifC02_Numbers: number spellings (decimal / exponent forms, both exponent letters, signs) for a DOUBLE
+// member, inside an object and inside an array; the denoted value is what strconv.ParseFloat gives.
+func VerifC02_Numbers() {
+	desc := verifSchema(thrift.Options{})
+	sp := verifNumberSpellings[vrt.Param("SP")%len(verifNumberSpellings)]
+	want, err0 := strconv.ParseFloat(sp, 64)
+	if err0 != nil {
+		return
+	}
+	var doc []byte
+	doc = append(doc, `{"d":`...)
+	doc = append(doc, sp...)
+	if vrt.Bool() {
+		doc = append(doc, ' ')
+	}
+	doc = append(doc, '}')
+	cv := NewBinaryConv(conv.Options{})
+	buf := make([]byte, 0, 32)
+	err := cv.DoInto(context.Background(), desc, doc, &buf)
+	vrt.Assert(err == nil, "C02.number.spelling.noerror")
+	if err != nil {
+		return
+	}
+	exp := vrt.PutBE64(vrt.PutField(nil, vrt.TDOUBLE, 6), int64(math.Float64bits(want)))
+	exp = append(exp, 0)
+	vrt.Reach("converted")
+	label := "C02.number.spelling.value"
+	if sp == "-0" {
+		label = "C02.number.spelling.negative-zero.value"
+	}
+	vrt.Assert(vrt.BytesEq(buf, 0, len(buf), exp, 0, len(exp)), label)
 }
